@@ -93,11 +93,14 @@ def run_render(rep, ctx, label, observers, n_quick, n_thorough, corr_fraction=1.
     # ---- the spacer cap: the same documents with a tiny cap (module constant MAX_SPACERS set from outside), so that the
     # code path beyond the cap is exercised on small pages too; observers and correspondence
     if small_caps:
-        sub = [d for d in docs if rng.random() < 0.3][:400 if tier == 'quick' else 4000]
+        sub = [(d, rng.choice([0, 1, 2, 3, 4, 5, 7, 10])) for d in docs if rng.random() < 0.3][:400 if tier == 'quick' else 4000]
+        # the hand-picked pairs and pages that END with (empty) block elements, under the smallest caps: the tags of spacers dropped
+        # at the very end of a page are handed to the last kept token
+        tails = ['<p>one two</p><p></p>', '<ul><li>a b</li><li></li></ul>', '<div><p>x y z</p><div></div></div><section></section>', '<p>w</p><table></table>']
+        sub += [((a, b), cap) for (a, b) in list(rc.HAND_PAIRS) + [(t, t) for t in tails] + [(tails[0], tails[1]), (tails[2], tails[0])] for cap in (0, 1, 2)]
         n_cap = 0
         cap_pairs = {}
-        for a, b in sub:
-            cap = rng.choice([0, 1, 2, 3, 4, 5, 7, 10])
+        for (a, b), cap in sub:
             try:
                 with rc.spacer_cap(cap):      # the observers that render again must see the same cap
                     r = rc.render(a, b, include=include, url_rules=url_rules)
